@@ -83,6 +83,10 @@ def w9_cases(ctx, n, n_src=None):
     npairs = len(gen_const.lookalike_pairs())
     idx = list(range(npairs)) if ctx.tier != "quick" else [j for j in range(npairs) if (j + ctx.seed) % 3 == 0]
     out += [{"k": "w9", "seed": ctx.seed, "i": 100000 + j, "pair": j} for j in idx]
+    # (both members referenced: as module constants or inside a function, alternating with the seed)
+    out += [{"k": "w9", "seed": ctx.seed, "i": 1000000 + j, "pair": 1000000 + j, "layout": (j + ctx.seed) % 2} for j in range(len(gen_const.family_pairs()))]
+    out += [{"k": "w9", "seed": ctx.seed, "i": 2000000 + j, "pair": 2000000 + j} for j in range(len(gen_const.BIG_CONSTANTS))
+            if ctx.tier != "quick" or j == (ctx.seed % 2) * 2 or j == 1]
     return out
 
 
